@@ -334,14 +334,8 @@ func (i *IRCServer) deleteSessionLocked(s *Session, msgid uint64) {
 func (i *IRCServer) ExpireSessions() []*robust.Message {
 	var deletes []*robust.Message
 
-	i.ConfigMu.RLock()
-	defer i.ConfigMu.RUnlock()
-	timeout := time.Duration(i.Config.SessionExpiration)
-	if timeout == 0 {
-		// The config does not set SessionExpiration at all. Use the default
-		// (like the compaction does), do not expire every session at once.
-		timeout = time.Duration(config.DefaultConfig.SessionExpiration)
-	}
+	// See ThrottleUntil for why ConfigMu is not held here.
+	timeout := i.sessionExpiration()
 
 	i.sessionsMu.RLock()
 	defer i.sessionsMu.RUnlock()
@@ -606,11 +600,28 @@ func (i *IRCServer) GetNick(sessionid robust.Id) string {
 	return ""
 }
 
-// ThrottleUntil returns the last activity of |sessionid| or the zero time.
-func (i *IRCServer) ThrottleUntil(sessionid robust.Id) time.Time {
+func (i *IRCServer) postMessageCooloff() time.Duration {
 	i.ConfigMu.RLock()
 	defer i.ConfigMu.RUnlock()
-	cooloff := time.Duration(i.Config.PostMessageCooloff)
+	return time.Duration(i.Config.PostMessageCooloff)
+}
+
+// sessionExpiration returns the configured session expiration, or the default
+// if the config does not set SessionExpiration at all.
+func (i *IRCServer) sessionExpiration() time.Duration {
+	i.ConfigMu.RLock()
+	defer i.ConfigMu.RUnlock()
+	if timeout := time.Duration(i.Config.SessionExpiration); timeout != 0 {
+		return timeout
+	}
+	return time.Duration(config.DefaultConfig.SessionExpiration)
+}
+
+// ThrottleUntil returns the last activity of |sessionid| or the zero time.
+func (i *IRCServer) ThrottleUntil(sessionid robust.Id) time.Time {
+	// Not holding ConfigMu while taking sessionsMu: the state machine takes
+	// them in the opposite order (e.g. GLINE), which would deadlock.
+	cooloff := i.postMessageCooloff()
 	if cooloff == 0 {
 		return time.Time{}
 	}
